@@ -252,7 +252,9 @@ pub trait String:
 
             let new_len = self.len() + bytes.len();
             self.set_len(new_len as u64);
-            if new_len < self.capacity() {
+            // a string whose storage has room for capacity + 1 bytes is terminated
+            // even when it is full
+            if new_len < self.data_mut().len() {
                 self.data_mut()[new_len].write(0);
             }
         }
